@@ -30,6 +30,38 @@ pub(crate) fn validate_values(
     value_of_correct_type(diagnostics, schema, ty, &argument.value, var_defs);
 }
 
+/// Inside a value whose shape is not checked (an object literal given to a custom scalar),
+/// report the variables that the operation does not define.
+fn undefined_variables_in_opaque_value(
+    diagnostics: &mut DiagnosticList,
+    value: &Node<ast::Value>,
+    var_defs: &[Node<ast::VariableDefinition>],
+) {
+    match &**value {
+        ast::Value::Variable(var_name) => {
+            if !var_defs.iter().any(|v| v.name == *var_name) {
+                diagnostics.push(
+                    value.location(),
+                    DiagnosticData::UndefinedVariable {
+                        name: var_name.clone(),
+                    },
+                );
+            }
+        }
+        ast::Value::List(items) => {
+            for item in items {
+                undefined_variables_in_opaque_value(diagnostics, item, var_defs);
+            }
+        }
+        ast::Value::Object(fields) => {
+            for (_, field_value) in fields {
+                undefined_variables_in_opaque_value(diagnostics, field_value, var_defs);
+            }
+        }
+        _ => {}
+    }
+}
+
 pub(crate) fn value_of_correct_type(
     diagnostics: &mut DiagnosticList,
     schema: &crate::Schema,
@@ -215,7 +247,13 @@ pub(crate) fn value_of_correct_type(
             }
         }
         ast::Value::Object(obj) => match &type_definition {
-            schema::ExtendedType::Scalar(scalar) if !scalar.is_built_in() => {}
+            schema::ExtendedType::Scalar(scalar) if !scalar.is_built_in() => {
+                // A custom scalar accepts any object literal,
+                // but the variables used inside it must still be defined.
+                for (_, value) in obj {
+                    undefined_variables_in_opaque_value(diagnostics, value, var_defs);
+                }
+            }
             schema::ExtendedType::InputObject(input_obj) => {
                 // Input Object Field Uniqueness
                 for (index, (name, value)) in obj.iter().enumerate() {
